@@ -37,6 +37,7 @@ ASSUMPTIONS = [
 
 E_SLACK = 1e-12
 X_TOL = 1e-8
+COND_MIN = 1e-6     # smallest |eigenvalue| / largest |eigenvalue| of the Hessian for the agreement check
 MARGIN = 1e-9
 XTOL = 1e-5          # library default, scaled by size(x0) inside the library
 
@@ -311,7 +312,15 @@ def check_agree(case):
         its, trailing = _iterations_from_log(log)
         pts += [p for p, _ in its]
         last_trials = its[-1][1] if (trailing == 0 and len(its) > 1) else None
-    labs = [_curv_label(ref, p)[0] for p in pts if np.all(np.isfinite(p))]
+    pts = [p for p in pts if np.all(np.isfinite(p))]
+    # DESIGN 2.6: agreement is only demanded on well-conditioned problems.  Where the Hessian is (numerically)
+    # singular at an iterate, the sign of a ~1e-17 curvature seen by CG is decided by round-off, which
+    # legitimately differs between op-by-op and fused compiled arithmetic.
+    for p in pts:
+        ev = np.abs(np.linalg.eigvalsh(ref.h(p)))
+        if ev.min() < COND_MIN*max(ev.max(), 1e-300):
+            return skip("agreement not demanded: Hessian numerically singular at an iterate")
+    labs = [_curv_label(ref, p)[0] for p in pts]
     if "negcurv" in labs:
         event = "iterate-with-negative-curvature-along-gradient"
     elif case["absdelta"] is not None and a["status"] == 0 and last_trials == 2:
